@@ -196,8 +196,10 @@ def run_scenario(scn: dict, backend: str = "asyncio") -> dict:
         t0 = time.monotonic()
         last = -1
         stable = 0
+        polls = 0
         while True:
             await anyio.sleep(POLL)
+            polls += 1
             with lock:
                 nev = len(events)
                 busy = any(fstate[c] == "run" and not (parked[c] and not gates[c].is_set())
@@ -209,16 +211,19 @@ def run_scenario(scn: dict, backend: str = "asyncio") -> dict:
             stable = stable + 1 if nev == last else 0
             last = nev
             dt = time.monotonic() - t0
-            if stable >= STABLE and not busy and not coming and not starting:
+            if stable < STABLE and dt <= 3 * HARD:
+                continue                      # something was logged a moment ago (or the process stalled)
+            if not busy and not coming and not starting:
                 break
-            if stable >= STABLE and not busy and dt > SOFT:
+            # time-outs need wall time AND loop activity: a stalled process is not a time-out
+            if not busy and dt > SOFT and polls >= 300:
                 # recorded, and not waited for again in this scenario
                 flags["soft_timeout"] = flags.get("soft_timeout", 0) + 1
                 given_up.update(coming)
                 if starting:
                     given_up_starting[0] = lim.borrowed_tokens - started
                 break
-            if dt > HARD:
+            if dt > HARD and polls >= 1000:
                 flags["hard_timeout"] = flags.get("hard_timeout", 0) + 1
                 break
         with lock:
@@ -252,8 +257,11 @@ def run_scenario(scn: dict, backend: str = "asyncio") -> dict:
                         # (only seen with broken code) is recorded by the final event and then
                         # torn down with a native Task.cancel() so that the run can finish.
                         t0 = time.monotonic()
-                        while any(cstate[c] == "call" for c in calls) and time.monotonic() - t0 < SOFT:
+                        polls = 0
+                        while any(cstate[c] == "call" for c in calls) and \
+                                (time.monotonic() - t0 < 2 * SOFT or polls < 1000):
                             await anyio.sleep(POLL)
+                            polls += 1
                         stuck = [c for c in calls if cstate[c] == "call"]
                         if stuck:
                             flags["stuck_calls"] = stuck
